@@ -222,6 +222,14 @@ def judge(hist: dict, res: dict) -> list[tuple[dict, str]]:
         if "fresh_gateway_raised" in pt:
             add({"clause": "fresh-gateway-rejects-snapshot", "what": pt["fresh_gateway_raised"].split(":")[0]}, f"at {at}: {pt['fresh_gateway_raised']}")
             continue
+        if hist.get("slow_host"):
+            # on a slow host time passes WHILE the snapshot is being replayed (that is the point: does a restore survive taking seconds?), so
+            # what is expired / merged at the end can differ for that reason alone: only 'the restore completes' is judged for these cases
+            if "second_restore_raised" in pt:
+                add({"clause": "second-restore-raises", "what": pt["second_restore_raised"].split(":")[0]}, f"at {at}: {pt['second_restore_raised']}")
+            if "empty_restore_raised" in pt:
+                add({"clause": "empty-snapshot-not-restorable", "what": pt["empty_restore_raised"].split(":")[0]}, f"at {at}: {pt['empty_restore_raised']}")
+            continue
         if not pt["pkts_equal"]:
             d = pt["diff"]
             kind = "lost" if d["n"][1] == 0 else "gained" if d["n"][0] == 0 else "changed"
@@ -284,7 +292,22 @@ def judge_file(hist: dict, res: dict) -> list[tuple[dict, str]]:
         r = res["b_snapshot_raised"]
         out.append(({"clause": "snapshot-raises", "level": "file-restored", "exc": r["exc"], "site": r["site"]}, f"restored gateway: {r}"))
         return out
-    a, b, b2 = strip_own(pkts_a), strip_own(res["pkts_b"]), strip_own(res["pkts_b2"])
+    def _dead(dtm: str, line: str) -> bool:
+        """Expired for certain by the independent rule (zero lifetime, or older than 2 x lifetime + 3 s at the newest packet's time): the library
+        purges such a message when it is next read (C14's mechanism), so its presence may differ between two snapshots - tallied, not judged."""
+        try:
+            pkt = Packet.from_dict(dtm, line)
+        except Exception:  # noqa: BLE001
+            return False
+        life = pkt._lifespan
+        if pkt.code == "1F09" and pkt.verb != "RQ":
+            life = timedelta(seconds=int(pkt.payload[2:6], 16) / 10)
+        if not isinstance(life, timedelta):
+            return False
+        now_ = datetime.fromisoformat(res["lines"][-1][0])
+        return life <= timedelta(0) or now_ - pkt.dtm > 2 * life + timedelta(seconds=3)
+
+    a, b, b2 = ({k: v for k, v in strip_own(x).items() if not _dead(k, v)} for x in (pkts_a, res["pkts_b"], res["pkts_b2"]))
     if a != b:
         only_a, only_b = sorted(set(a.items()) - set(b.items())), sorted(set(b.items()) - set(a.items()))
         first = (only_a or only_b)[0][1]
